@@ -240,6 +240,10 @@ func (val Value) Equals(other Value) Value {
 	case ty.IsObjectType():
 		oty := ty.typeImpl.(typeObject)
 		result = true
+		// The iteration order of a Go map is unspecified, so the result must
+		// not depend on which attribute we happen to visit first: a known
+		// inequality always wins over an unknown comparison.
+		sawUnknown := false
 		for attr, aty := range oty.AttrTypes {
 			lhs := Value{
 				ty: aty,
@@ -251,12 +255,16 @@ func (val Value) Equals(other Value) Value {
 			}
 			eq := lhs.Equals(rhs)
 			if !eq.IsKnown() {
-				return unknownResult()
+				sawUnknown = true
+				continue
 			}
 			if eq.False() {
 				result = false
 				break
 			}
+		}
+		if result && sawUnknown {
+			return unknownResult()
 		}
 	case ty.IsTupleType():
 		tty := ty.typeImpl.(typeTuple)
@@ -333,6 +341,9 @@ func (val Value) Equals(other Value) Value {
 		ety := ty.typeImpl.(typeMap).ElementTypeT
 		if len(val.v.(map[string]interface{})) == len(other.v.(map[string]interface{})) {
 			result = true
+			// As for objects above: a missing key or a known inequality
+			// wins over an unknown comparison, whatever the iteration order.
+			sawUnknown := false
 			for k := range val.v.(map[string]interface{}) {
 				if _, ok := other.v.(map[string]interface{})[k]; !ok {
 					result = false
@@ -348,12 +359,16 @@ func (val Value) Equals(other Value) Value {
 				}
 				eq := lhs.Equals(rhs)
 				if !eq.IsKnown() {
-					return unknownResult()
+					sawUnknown = true
+					continue
 				}
 				if eq.False() {
 					result = false
 					break
 				}
+			}
+			if result && sawUnknown {
+				return unknownResult()
 			}
 		}
 	case ty.IsCapsuleType():
